@@ -250,6 +250,21 @@ Definition fresh2_b (x : state) : bool :=
   && forallb (fun jb => negb (is_output i (j_loc jb)) || all_operations_done jb) (s_jobs x)
   && forallb (fun ts => tstate_eqb (t_st ts) TIdle && is_nil (b_store (t_buf ts))) (s_trans x).
 
+(* C02 over whole runs: a DONE record with a deterministic configured duration d lasted at least d, and exactly d on a
+   machine without outage configuration *)
+Definition no_outage_b (m : nat) : bool :=
+  match nth_error (i_machs i) m with Some mc => is_nil (mc_out mc) | None => false end.
+Definition durations_b (x : state) : bool :=
+  forallb (fun '(j, jb) =>
+    forallb (fun '(k, o) =>
+      match get_opcfg i j k with
+      | Ok oc => match oc_dur oc, o_st o with
+                 | Det d, ODone => match o_start o, o_end o with
+                                   | Time s, Time e => (s + d <=? e) && (if no_outage_b (o_mach o) then e =? s + d else true)
+                                   | _, _ => false end
+                 | _, _ => true end
+      | Err _ => true end) (indexed O (j_ops jb))) (indexed O (s_jobs x)).
+
 (* no AGV waits on a TimeDependency (hypothesis on the initial state of the theorems of SMP/ProvBatch.v; an
    invariant of instances whose machine post-buffers are unordered) *)
 Definition nodep_b (x : state) : bool :=
@@ -259,8 +274,8 @@ Definition nodep_b (x : state) : bool :=
 Definition clause_vector (x : state) : list bool :=
   [ placement_b x; loc_b x; mach_hold_b x; agv_hold_b x; claims_b x; capacity_b x; flags_b x;
     feasible_b x; no_overdue_b x; past_b x; busy_op_b x; proc_inner_b x; output_done_b x;
-    outages_b x; outage_nonneg_b x; agv_phase_b x; idle_unclaimed_b x; sto_ok_b x; fresh_b x; agv_load_b x; fresh2_b x; nodep_b x ].
+    outages_b x; outage_nonneg_b x; agv_phase_b x; idle_unclaimed_b x; sto_ok_b x; fresh_b x; agv_load_b x; fresh2_b x; nodep_b x; durations_b x ].
 
 End WithInst.
 
-Definition clause_names : list nat := seq0 22.
+Definition clause_names : list nat := seq0 23.
